@@ -7,7 +7,7 @@ use std::cmp;
 use std::collections::{BTreeMap, BinaryHeap};
 use std::rc::Rc;
 
-#[derive(PartialEq, Ord, Eq, Debug)]
+#[derive(PartialEq, Ord, Eq, Debug, Clone)]
 pub struct Factors(pub usize, pub Vec<Rc<String>>);
 
 impl cmp::PartialOrd for Factors {
@@ -16,14 +16,48 @@ impl cmp::PartialOrd for Factors {
     }
 }
 
+/// The search visits at most this many distinct dimensionalities, and
+/// does not start on anything more complex than `MAX_SCORE`.
+const MAX_STATES: usize = 10_000;
+const MAX_SCORE: i64 = 100;
+
 pub fn factorize(
     value: &Number,
     quantities: &BTreeMap<Dimensionality, Rc<String>>,
 ) -> BinaryHeap<Factors> {
+    try_factorize(value, quantities).unwrap_or_default()
+}
+
+/// Like `factorize`, but returns None when the dimensionality is too
+/// complex to be searched in reasonable time.
+pub fn try_factorize(
+    value: &Number,
+    quantities: &BTreeMap<Dimensionality, Rc<String>>,
+) -> Option<BinaryHeap<Factors>> {
+    if value.complexity_score() > MAX_SCORE {
+        return None;
+    }
+    factorize_memo(value, quantities, &mut BTreeMap::new())
+}
+
+/// The factorizations of a value depend on its dimensionality only, and
+/// the search reaches the same dimensionality along very many paths, so
+/// each one is worked out once.
+fn factorize_memo(
+    value: &Number,
+    quantities: &BTreeMap<Dimensionality, Rc<String>>,
+    memo: &mut BTreeMap<Dimensionality, BinaryHeap<Factors>>,
+) -> Option<BinaryHeap<Factors>> {
     if value.dimless() {
         let mut map = BinaryHeap::new();
         map.push(Factors(0, vec![]));
-        return map;
+        return Some(map);
+    }
+    if let Some(known) = memo.get(&value.unit) {
+        return Some(known.clone());
+    }
+    if memo.len() >= MAX_STATES {
+        return None;
     }
     let mut candidates: BinaryHeap<Factors> = BinaryHeap::new();
     let value_score = value.complexity_score();
@@ -32,14 +66,18 @@ pub fn factorize(
             value: Numeric::one(),
             unit: unit.clone(),
         };
-        let res = (value / &num).unwrap();
+        let res = match value / &num {
+            Some(res) => res,
+            // the exponents would not fit
+            None => continue,
+        };
         //if res.unit.len() >= value.unit.len() {
         let score = res.complexity_score();
         // we are not making the unit any simpler
         if score >= value_score {
             continue;
         }
-        let res = factorize(&res, quantities);
+        let res = factorize_memo(&res, quantities, memo)?;
         for Factors(score, mut vec) in res {
             vec.push(name.clone());
             vec.sort();
@@ -50,5 +88,6 @@ pub fn factorize(
         candidates = next.into_iter().take(10).collect();
     }
     assert!(candidates.len() <= 10);
-    candidates
+    memo.insert(value.unit.clone(), candidates.clone());
+    Some(candidates)
 }
